@@ -3,7 +3,7 @@
 confirmation record (from /tmp/sv_*_<name>.log produced by seed_verify.sh and /tmp/seed_tests_all.log)."""
 import json, os, re, shutil, sys
 pid, name = sys.argv[1], sys.argv[2]
-src = "/var/tmp/seed-%s/SEED" % pid
+src = (sys.argv[3] if len(sys.argv) > 3 else "/var/tmp/seed-%s" % pid) + "/SEED"
 dst = "/verif/seeded/%s" % name
 os.makedirs(dst, exist_ok=True)
 shutil.copy(os.path.join(src, "patch.diff"), os.path.join(dst, "patch.diff"))
@@ -32,7 +32,7 @@ rec = {
     "demo": meta.get("demo"),
     "author_meta": {k: meta.get(k) for k in ("existing_tests_run", "baseline_failures", "with_change_failures")},
     "lead_confirmation": {
-        "how": "tools/seed_verify.sh %s /var/tmp/seed-%s %s (fresh scratch worktree of /repo HEAD: demo on clean tree, "
+        "how": "tools/seed_verify.sh %s <seed worktree %s> %s (fresh scratch worktree of /repo HEAD: demo on clean tree, "
                "git apply patch.diff, demo on patched tree, demo removed, VERIF_REPO=<worktree> ./check %s) and "
                "tools/seed_tests.sh %s (go build ./... + go test of the touched packages on the patched tree)" % (pid, pid, name, pid, name),
         "demo_clean_tree_tail": tail("/tmp/sv_clean_%s.log" % name, 3),
